@@ -566,6 +566,12 @@ func gepInstType(elemType, src types.Type, indices []value.Value) types.Type {
 				idx.VectorLen = indexType.Len
 			}
 		}
+		// A vector index widens the result also when it is a constant without
+		// elements (zeroinitializer, undef, poison); keep length and scalability.
+		if indexType, ok := index.Type().(*types.VectorType); ok {
+			idx.VectorLen = indexType.Len
+			idx.Scalable = indexType.Scalable
+		}
 		idxs = append(idxs, idx)
 	}
 	return gep.ResultType(elemType, src, idxs)
